@@ -12,12 +12,20 @@ import (
 
 var vCursorTs int64
 
+// vCursorPublishFails: the next publish to the cursors stream fails (ack
+// timeout, read-only or paused cursors partition, deadline): nothing is stored.
+var vCursorPublishFails bool
+
 // vInstallCursorPublish: apiServer.Publish on the cursors stream = append to
 // the cursors partition's real log and commit it (the contract of an
 // acknowledged ALL-policy publish; C04 checks that contract).
 func vInstallCursorPublish() {
 	vIntercept("(*github.com/liftbridge-io/liftbridge/server.apiServer).Publish",
 		func(a *apiServer, ctx context.Context, req *client.PublishRequest) (*client.PublishResponse, error) {
+			if vCursorPublishFails {
+				vCursorPublishFails = false
+				return nil, context.DeadlineExceeded
+			}
 			p := a.metadata.GetPartition(req.Stream, req.Partition)
 			vCursorTs = time.Now().UnixNano()
 			offs, err := p.log.Append([]*commitlog.Message{{Key: req.Key, Value: req.Value, Timestamp: vCursorTs, LeaderEpoch: 1, MagicByte: 2,
@@ -79,6 +87,8 @@ func VerifC11Cursors() {
 	if vParam("leaderlag", 1) == 1 {
 		kinds = 9
 	}
+	failKind := kinds // one more kind: a SetCursor whose publish fails
+	kinds++
 	for i := 0; i < steps; i++ {
 		if lagging && vChoose(2) == 1 {
 			// the new follower's next replication request arrives: the new
@@ -86,7 +96,23 @@ func VerifC11Cursors() {
 			p.log.SetHighWatermark(p.log.NewestOffset())
 			lagging = false
 		}
-		switch vChoose(kinds) {
+		k := vChoose(kinds)
+		if k == failKind {
+			// a SetCursor whose publish to the cursors stream fails: it reports
+			// the failure and the stored cursor stays what it was
+			if away {
+				return
+			}
+			id := ids[vChoose(2)]
+			vCursorPublishFails = true
+			stt := s.cursors.SetCursor(ctx, "foo", id, 0, 7)
+			vAssert(stt != nil, "a SetCursor whose publish failed reports the failure")
+			vCursorPublishFails = false
+			vCover("set-failed")
+			vYield()
+			continue
+		}
+		switch k {
 		case 7: // the cursors partition changes leader. The new leader was in
 			// sync (same log), but the high watermark it learned as a follower
 			// may be one message behind what the old leader had committed and
